@@ -109,6 +109,50 @@ impl PartialOrd for Pv {
 }
 
 // ------------------------------------------------------------------------------------
+// Ik: key wrapper whose INHERENT methods named like the trait methods give wrong answers
+// (generated code must call the traits by path, not by method syntax)
+// ------------------------------------------------------------------------------------
+
+#[derive(Clone, Copy, Debug, Default)]
+pub struct Ik<T>(pub T);
+impl<T> Ik<T> {
+    pub fn cmp(&self, _: &Self) -> Ordering {
+        Ordering::Less
+    }
+    pub fn partial_cmp(&self, _: &Self) -> Option<Ordering> {
+        None
+    }
+    pub fn eq(&self, _: &Self) -> bool {
+        false
+    }
+    pub fn ne(&self, _: &Self) -> bool {
+        false
+    }
+    pub fn hash<H>(&self, _: &mut H) {}
+}
+impl<T: PartialEq> PartialEq for Ik<T> {
+    fn eq(&self, o: &Self) -> bool {
+        PartialEq::eq(&self.0, &o.0)
+    }
+}
+impl<T: Eq> Eq for Ik<T> {}
+impl<T: PartialOrd> PartialOrd for Ik<T> {
+    fn partial_cmp(&self, o: &Self) -> Option<Ordering> {
+        PartialOrd::partial_cmp(&self.0, &o.0)
+    }
+}
+impl<T: Ord> Ord for Ik<T> {
+    fn cmp(&self, o: &Self) -> Ordering {
+        Ord::cmp(&self.0, &o.0)
+    }
+}
+impl<T: Hash> Hash for Ik<T> {
+    fn hash<H: Hasher>(&self, h: &mut H) {
+        Hash::hash(&self.0, h)
+    }
+}
+
+// ------------------------------------------------------------------------------------
 // Generic wrapper mentioning a parameter
 // ------------------------------------------------------------------------------------
 
